@@ -302,7 +302,9 @@ func report(cc *checkCfg, tier string, seed int, res *results, ran []*harnessCfg
 	known := loadKnown()
 	isKnown := func(h, key string) *knownFinding {
 		for k := range known {
-			if known[k].Property == cc.Property && known[k].Key == key && (known[k].Harness == "" || known[k].Harness == h) {
+			// a finding recorded for a harness also covers the same harness at another bound
+			// (VerifC11_DeclaredLimit / VerifC11_DeclaredLimit3): the key names the failing case
+			if known[k].Property == cc.Property && known[k].Key == key && (known[k].Harness == "" || harnessFamily(known[k].Harness) == harnessFamily(h)) {
 				return &known[k]
 			}
 		}
@@ -724,4 +726,9 @@ func perturbOverlay(dir, tmp string, ov map[string]string) int {
 		}
 	}
 	return n
+}
+
+// harnessFamily strips the bound suffix (trailing digits) of a harness name.
+func harnessFamily(h string) string {
+	return strings.TrimRight(h, "0123456789")
 }
